@@ -23,17 +23,19 @@ def run(ctx):
     def extra(r, kv):
         return {"input_kinds": kv.get("inputs", ""), "outcomes": kv.get("outcomes", ""), "produced_values": kv.get("produced_values", ""),
                 "modelled_types": kv.get("modelled_types", ""), "codec_model_rows": kv.get("codec_model_rows", ""), "schema_types_without_probe": kv.get("schema_types_without_probe", ""),
-                "max_alloc_per_input_byte": kv.get("max_alloc_per_input_byte", ""), "low_acceptance_types": kv.get("low_acceptance_types", "")}
+                "max_alloc_per_input_byte": kv.get("max_alloc_per_input_byte", ""), "low_acceptance_types": kv.get("low_acceptance_types", ""),
+                "work_bound": kv.get("work_bound", ""), "slowest_call": kv.get("slowest_call", "")}
     return generic.standard(
         ctx, ["MlsVerif.Props.C12", "MlsVerif.Props.C12Custom", "MlsVerif.Props.C12Gen", "MlsVerif.Props.C12GenCodecs", "MlsVerif.Props.GenTables"], ["c12"], "c12", "c12", SOURCES,
-        rule="per decodable generated type (73 of ~100; the rest are encode-only inputs of hashes/signatures): 220 (thorough 3000) inputs = 40% valid "
+        rule="per decodable generated type (85 of 101; the rest are encode-only inputs of hashes / signatures or test-only types, each listed with its reason): 220 (thorough 3000) inputs = 40% valid "
              "(schema-directed generator with boundary lengths 0/63/64/16383/16384, for the test types the real encoder on random values), 50% "
              "mutated (truncate, bit flip, special byte, insert, delete, non-minimal varint, oversized length, invalid varint prefix, junk tail, "
              "duplicated chunk, double mutation), 10% random; plus every distinct value harvested from 3 (12) random group histories with 12 (60) "
              "mutations each; a row = one decode compared field by field (consumed, size, same/diff, value text)",
         what_corr="the implementation decodes / sizes / re-encodes a byte string differently from the generated schema under the codec model",
         what_oracle="a decode panicked, reported a wrong length, accepted non-canonical bytes for a wire type, a produced value did not round-trip, "
-                    "or the decoder allocated beyond 4096 x input + 256 KiB",
+                    "the decoder allocated beyond 4096 x input + 256 KiB, a container decoded more than 2n+4 elements from n input bytes "
+                    "(clock-free work bound over zero-size and one-byte elements), or ONE codec call did not return within the deadline (watchdog thread, 20 s; the failing type, phase and input are reported)",
         assumptions=["schemas and codec records are extracted from the Rust item definitions by tools/translate_schemas.py (trusted extractor; validated by the rows: a wrong "
                      "extraction shows up as a differing row); the hand-written codecs (Proposal, Credential, PublicMessage, auth data, ratchet history, LeafIndex, ExtensionList) are "
                      "modelled by hand (Model/CodecCustom), composed with the derived ones by the translator (Gen/Codecs) and compared row by row (`decc`) on real and mutated "
